@@ -1,7 +1,8 @@
 (* C07: the choice condition of the domain (choice_stable, Proofs/FetchIdem.v) holds for every
    well-formed choice master (ChoiceTop.wf_choice_master: names distinct up to case, no name starting
    with "*" once the selection star is removed, none called none/auto) with AT LEAST TWO alternatives
-   whose names contain no "+".  (With a single alternative it fails: C07_refuted_single_choice.) *)
+   (choice_stable_wf_any_names; choice_stable_wf is the earlier statement, for names without "+",
+   kept for its users).  (With a single alternative it fails: C07_refuted_single_choice.) *)
 From Coq Require Import List Ascii String Bool Arith ZArith Lia.
 From Phil Require Import Base Tree Choice ChoiceProofs ChoiceTop Fetch FetchIdem.
 Import ListNotations.
@@ -40,23 +41,23 @@ Section ChoiceStable.
   Variable m : list word.
   Hypothesis Hwf : wf_choice_master m = true.
   Hypothesis Hlen : 2 <= length m.
-  Hypothesis Hplus : forall w, In w m -> mem plus (wv w) = false.
   Variable b : word -> bool.
 
   Let r := map (fun w => restar (b w) w) m.
 
-  Lemma r_no_plus : existsb (fun w => mem plus (wv w)) r = false.
+  (* r is never read as the a+b form, also if names contain "+": with a starred word it has a star,
+     with none it is the complete list of the alternatives *)
+  Lemma r_plus_form : plus_form m r = false.
   Proof.
-    destruct (existsb (fun w => mem plus (wv w)) r) eqn:E; [|reflexivity].
-    apply existsb_exists in E. destruct E as [x [Hx E]]. unfold r in Hx. apply in_map_iff in Hx.
-    destruct Hx as [w [Ex Hw]]. subst x. unfold restar in E. cbn [wv] in E.
-    assert (mem plus (unstar (wv w)) = true).
-    { destruct (b w); [|exact E]. cbn in E. exact E. }
-    apply mem_plus_unstar in H. rewrite (Hplus w Hw) in H. discriminate.
+    destruct (existsb b m) eqn:E.
+    - apply qs_not_plus_form. apply existsb_exists in E. destruct E as [w [Hw Bw]].
+      apply existsb_exists. exists (restar (b w) w). split; [unfold r; apply in_map_iff; exists w; split; [reflexivity | exact Hw]|].
+      rewrite Bw. unfold qs, restar. cbn [wv]. cbn. apply orb_true_r.
+    - apply plus_form_full. apply full_list_true_iff. unfold r, alts_of. rewrite map_map.
+      apply map_ext_in. intros w Hw. unfold restar. cbn [wv].
+      replace (b w) with false; [reflexivity|].
+      symmetry. destruct (b w) eqn:Bw; [|reflexivity]. rewrite <- E. symmetry. apply existsb_exists. exists w. split; assumption.
   Qed.
-
-  Lemma r_plus_form : plus_form r = false.
-  Proof. unfold plus_form. rewrite r_no_plus. rewrite andb_false_r. reflexivity. Qed.
 
   Lemma nodup_keys_m : nodup_keys (keys m) = true.
   Proof.
@@ -114,11 +115,13 @@ Section ChoiceStable.
   Qed.
 End ChoiceStable.
 
-Theorem choice_stable_wf : forall opt m, wf_choice_master m = true -> 2 <= length m ->
-  (forall w, In w m -> mem plus (wv w) = false) -> choice_stable opt m.
+(* since the repair of choice_converters.fetch (the complete list is not the a+b form) the names
+   may contain "+" *)
+Theorem choice_stable_wf_any_names : forall opt m, wf_choice_master m = true -> 2 <= length m ->
+  choice_stable opt m.
 Proof.
-  intros opt m Hwf Hlen Hplus. split.
-  - pose proof (refetch_b m Hwf Hlen Hplus (fun w => starts_star (wv w)) opt) as H.
+  intros opt m Hwf Hlen. split.
+  - pose proof (refetch_b m Hwf Hlen (fun w => starts_star (wv w)) opt) as H.
     assert (E : map (fun w => restar (starts_star (wv w)) w) m = m).
     { rewrite <- (map_id m) at 2. apply map_ext. intros w. apply restar_self. }
     cbv beta in H. rewrite E in H. apply fetch_res_ok. exact H.
@@ -126,5 +129,9 @@ Proof.
     + pose proof (fetch_ok_master_ok _ _ _ _ _ H) as Mok. rewrite (fetch_auto opt m ws false Mok A) in H. inversion H. subst r.
       apply fetch_res_ok. apply fetch_auto; [exact Mok|reflexivity].
     + rewrite (fetch_ok_spec _ _ _ _ _ H A). apply fetch_res_ok.
-      exact (refetch_b m Hwf Hlen Hplus (fun w => requested (mandatory opt) ws (key w)) opt).
+      exact (refetch_b m Hwf Hlen (fun w => requested (mandatory opt) m ws (key w)) opt).
 Qed.
+
+Theorem choice_stable_wf : forall opt m, wf_choice_master m = true -> 2 <= length m ->
+  (forall w, In w m -> mem plus (wv w) = false) -> choice_stable opt m.
+Proof. intros opt m Hwf Hlen _. apply choice_stable_wf_any_names; assumption. Qed.
